@@ -320,6 +320,8 @@ def build_detector(d: dict, dtype, complex_fields: bool, dt: float):
         plot=False,
     )
     k = d["kind"]
+    if d.get("complex_dtype"):  # time-domain record of complex-valued fields (Bloch / forced complex storage)
+        common["dtype"] = jnp.complex128 if dtype == jnp.float64 else jnp.complex64
     if k == "field":
         return fdtdx.FieldDetector(reduce_volume=d.get("reduce", False), components=tuple(d.get("components", ("Ex", "Ey", "Ez", "Hx", "Hy", "Hz"))), **common)
     if k == "energy":
